@@ -7,6 +7,7 @@ import (
 	"sync"
 	"testing"
 	"time"
+	"verifh/iso"
 
 	"github.com/philpearl/avro"
 	null "github.com/unravelin/null/v5"
@@ -393,4 +394,61 @@ func TestC18Dates(t *testing.T) {
 	col.AddDistinct(n)
 	col.LabelN("dates_enumerated", n)
 	col.Sample(c18Case{S: []byte("2024-02-29")})
+}
+
+// ---------------------------------------------------------------------------
+// First use: the first timestamps a process ever parses (caches and memos are
+// in their initial state). Each case runs in a fresh worker process.
+
+type c18FirstCase struct {
+	Strs [][]byte `json:"strs"`
+}
+
+func init() {
+	registerIso("c18first", func(c c18FirstCase) error {
+		for _, s := range c.Strs {
+			if _, _, err := runC18(c18Case{S: s}); err != nil {
+				return err
+			}
+		}
+		return nil
+	})
+	registerReplay("c18first", func(c c18FirstCase) error {
+		w, err := iso.NewWorker()
+		if err != nil {
+			return fmt.Errorf("VERIF-INCONCLUSIVE cannot start worker: %v", err)
+		}
+		defer w.Close()
+		_, err = isoVerdict(w, "c18first", c, 30*time.Second)
+		return err
+	})
+}
+
+func TestC18Fresh(t *testing.T) {
+	col := stats.New("C18")
+	col.Rule = c18Rule
+	defer col.Flush()
+	w, err := iso.NewWorker()
+	if err != nil {
+		t.Fatalf("VERIF-INCONCLUSIVE cannot start worker: %v", err)
+	}
+	defer w.Close()
+	firsts := []string{"2006-01-02T15:04:05+00:00", "2006-01-02T15:04:05-00:00", "2006-01-02T15:04:05Z", "2006-01-02", "2006-01-02T15:04:05.5+00:01",
+		"2006-01-02T15:04:05-00:01", "2006-01-02T15:04:05+14:00", "2006-01-02T15:04:05-12:00", "0000-01-01T00:00:00Z", "9999-12-31T23:59:59.999999999+00:00"}
+	rapid.Check(t, func(rt *rapid.T) {
+		var c c18FirstCase
+		c.Strs = append(c.Strs, []byte(firsts[gen.Uniform(rt, "first", len(firsts))]))
+		if gen.Uniform(rt, "firstFromGrammar", 3) == 0 {
+			c.Strs[0] = []byte(grammarTimestamp(rt))
+		}
+		for n := gen.UniformRange(rt, "more", 0, 3); n > 0; n-- {
+			c.Strs = append(c.Strs, drawC18One(rt).S)
+		}
+		col.Record(c, true, "first_use_in_a_process")
+		w.Restart()
+		if _, err := isoVerdict(w, "c18first", c, 30*time.Second); err != nil {
+			col.Flush()
+			failCase(rt, "C18", "c18first", c, err)
+		}
+	})
 }
